@@ -31,6 +31,13 @@ Proof. exact exit_releases_everywhere. Qed.
 Theorem c10_no_event_without_connection : forall s e, spa s = false -> stepS s (Ext e) = None.
 Proof. exact no_ext_without_spa. Qed.
 
+(* late datagrams / timers of an abandoned connection: whatever event is raised on its behalf (a handshake step reported by the
+   orphaned connect coroutine, its exhausted retries, a ping answer ...) in whatever reachable state, neither the lifecycle
+   state nor the ledger changes and nothing is delivered - because a disconnected spa stays silent (AST fact
+   spa_silent_after_disconnect); without that fact the event goes through the switch and this theorem fails *)
+Theorem c10_late_events_are_inert : forall c ls x, runL (entered c, r0) ls = Some x -> late_inert x = true.
+Proof. exact late_events_inert. Qed.
+
 Example c10_nonvacuous :
   existsb (fun x => match ppc (fst x) with PConn 2 => true | _ => false end) reachL = true /\
   existsb (fun x => in_loc (fst x) && Nat.eqb (eps (snd x)) 1) reachL = true /\
